@@ -53,8 +53,9 @@
      type; promoted methods count as methods of the embedding type (Go semantics).
    * A custom folder whose output is not one well-formed value (`userCode`) puts no demand
      on Fold.
-  NOT a reading, deliberately kept as documented although the code differs (findings):
-   * 6e for a string / slice / map type with IsZero: `IsZero()==true` ⇒ empty.
+  NOT readings: points where the code used to differ from the documentation.  They were kept
+  as documented, reported as findings, and are repaired on branch `fold-fixes`:
+   * 6e for a string / slice / map / array type with IsZero: `IsZero()==true` ⇒ empty.
    * 6c for a type with a registered fold function: the members of the object that
      function emits (rule 2 decides what the type folds to).
    * rule 1 for a nil pointer to a type whose Folder is declared on the value receiver.
